@@ -395,6 +395,8 @@ class Gen:
                 a, b = sp
                 if where == "before":
                     p = body.rfind("\n", 0, a) + 1
+                    if p == 0:
+                        p = 1  # anchor on the line of the body's opening brace: insert right after it
                 else:
                     p = body.find("\n", b)
                     p = len(body) if p < 0 else p + 1
@@ -448,6 +450,8 @@ class Gen:
         import vxrules
         vxrules._VEC_RECEIVERS.clear()
         vxrules._VEC_RECEIVERS.update(self.unit.get('vec_receivers', []))
+        vxrules._COPY_VEC_CLONES.clear()
+        vxrules._COPY_VEC_CLONES.update(self.unit.get('copy_vec_clones', []))
         for r in rules:
             fn = getattr(vxrules, "rule_" + r)
             text, apps = fn(text)
